@@ -2,9 +2,46 @@ SPEC = dict(
     props_file="C06",
     legs=[dict(family="cpc", focus="union", oracles=["union_ok"], profiles=["debug", "release"], n_quick=60, n_thorough=500,
                n_search=40, panic_is_violation=True)],
-    level_text="(placeholder)",
-    level_note="",
-    technique="",
-    trusted=[],
-    assumptions=[],
+    level_text="Theorems (Props/C06.v) over an executable model of cpc/union.rs (Model/CpcUnion.v: with_seed, update with reduce_k "
+               "and the merge cases A (walk the sparse source into the accumulator, clone shortcut, graduation to a bit matrix), "
+               "B, C, D, the three or_*_into_matrix helpers, walk_table_updating_sketch with row masking, to_sketch via the "
+               "from_matrix loop shared with move_window) on top of the C05 sketch model. Spec: matrices as functions, "
+               "mfold (rows folded modulo 2^lg), mor; uspec = inputs applied one by one (empty inputs ignored), proved equal to the "
+               "closed form of the property text: lg_min over the union and the NON-EMPTY inputs, OR of the non-empty inputs "
+               "folded to lg_min (c06_spec_closed_form). For ALL union lg_k in 4..=26 and ALL sequences of valid sketches (any "
+               "lg_k, any flavor; every sketch reachable by updates and every union result is valid) whose result stays in the "
+               "C05 domain 8C < 475K: no panic; union.lg_k() and num_coupons() are the Spec's; to_sketch() is a valid sketch of "
+               "exactly the Spec matrix (build_bit_matrix = Spec rows, num_coupons = popcount, offset = correct offset <= 56, "
+               "window iff flavor > Sparse, first interesting column sound, validate() = true, merged unless empty) "
+               "(c06_cpc_union_refines; per-step c06_union_update_refines for both union states, c06_cpc_union_result_wf). "
+               "Commutativity/associativity (any permutation of the inputs) and idempotence (a repeated input) of lg_k, coupon "
+               "count, matrix, offset and flavor (c06_cpc_union_order_irrelevant, c06_cpc_union_repetition_irrelevant, and the same on "
+               "the Spec). c06_union_bitmatrix_not_sparse: a union in the BitMatrix state holds >= 3K/32 coupons (the code relies "
+               "on it silently), via c06_fold_popcount (C_folded >= C/f); c06_fold_fold, c06_fold_or. "
+               "The model is tied to the crate by generated union cases (0..6 inputs, lg_k 4..12, five flavors, hashed / geometric / "
+               "few-column streams, inputs optionally passed through serialize+deserialize, three input orders incl. a repetition, "
+               "to_sketch after every step, results fed into a second union) in debug and release: union lg_k, num_coupons, state "
+               "kind, accumulator dump or matrix rows, and for every result lg_k, C, offset, first interesting column, flavor, "
+               "merge flag, window bytes, sorted table, matrix, validate are compared; the oracle recomputes the OR of folded "
+               "matrices from the exact pairs.",
+    level_note="Trusted: as C05 (Coq kernel incl. primitive floats, translator, harness/driver, pyref hashes). NOT verified: "
+               "PairTable's slot layout, and with it the order in which walk_table_updating_sketch visits the source (golden-ratio "
+               "stride over slots): the model walks the set in list order and the theorems hold for every order; the order only "
+               "affects the accumulator's kxp/HIP registers, which are dead under merge_flag and are not compared. 'marked as "
+               "merged' is proved for non-empty results only: the result of a union that saw no coupons is a fresh sketch with "
+               "merge_flag = false (c06_empty_result_merged_refuted; harmless: an empty sketch estimates 0 either way; Java sets the "
+               "flag, C++ does not). Domain: if folding pushes the result beyond 8C >= 475K (59.4 of 64 columns full) to_sketch "
+               "builds a sketch with offset > 56, as for C05 outside the property. Seeds: all sketches of a union share the seed "
+               "(the crate asserts it). The 'deserialized inputs' clause is exercised by the correspondence run (model: identity), "
+               "its theorem is C11's. flavor() is modelled in unbounded arithmetic = the repaired u64 code (C17).",
+    technique="Coq: algebra of fold/OR on matrices (bit-level characterisations, popcount bound by induction on the fold depth), "
+              "representation relation union state -> (lg_k, matrix), refinement by cases, laws through the closed form + "
+              "differential correspondence model vs crate (debug+release) + exact OR-of-folded-matrices oracle",
+    trusted=["as C05: pairs of hashed items via tools/pyref.py; PairTable slot layout modelled as a finite set",
+             "the visiting order of walk_table_updating_sketch is layout-dependent and left arbitrary (proved irrelevant for "
+             "everything but the dead HIP registers)",
+             "serialize/deserialize of inputs and results is replayed on the crate only (model: identity; C11)"],
+    assumptions=["union lg_k and all sketch lg_k in 4..=26, one seed",
+                 "inputs are valid sketches (reachable by updates, or results of unions of such)",
+                 "the result satisfies 8 * num_coupons < 475 * K (then every intermediate union does too)"],
 )
